@@ -65,6 +65,12 @@ pub enum Event<'a> {
         child: u64,
         ncaptures: u16,
     },
+    /// the instruction the thread just executed stopped it with a runtime error
+    ThreadFailed {
+        thread: u64,
+        is_main: bool,
+        error: &'a str,
+    },
     ThreadDropped {
         thread: u64,
         is_main: bool,
